@@ -1,4 +1,5 @@
 import KyupyVerif.Proofs.Sdf
+import KyupyVerif.Proofs.SdfText
 /-! # C14 — every SDF delay lands on the right line, polarity and data set — none is lost
 
 Object of the theorems: the hand-written model `KV.Sdf` (Model/Sdf.lean) of `kyupy/sdf.py` *after* lark:
@@ -427,5 +428,54 @@ example : iopaths exPins (parse .merge exCells) 1 5 false false = 2 :=
     (by decide +kernel) (by decide +kernel) (by decide) (by decide +kernel)
 /-- `none_lost_partial` has non-trivial instances -/
 example : ((([exCells[0], exCells[1], exCells[2]] : List RawCell).map cell).map (·.1)).Nodup := by decide +kernel
+
+/-! ## text level: the grammar of `sdf.py` (Model/SdfText.lean) -/
+section text
+open KV.SdfText
+
+/-- Print/parse round trip of the SDF text model: for every parse tree `f` (DESIGN names, CELL blocks with INSTANCE
+names and DELAY sections of IOPATH / INTERCONNECT entries with `()` or three-field value lists) whose name tokens
+are tokens of the grammar (`validId`, `validIoe`, `validDesign`: plain or quoted / parenthesised form) and whose
+number fields are empty or decimal numbers `float()` accepts, and whose entries have one or two value lists,
+reading the canonical text gives back exactly `f` — through the scanner with lark's per-state terminal order, the
+reader for the grammar, and the transformer's raise conditions (`SdfFile.ok`). -/
+theorem sdf_text_roundtrip (f : SdfFile) (h : f.valid = true) : parseSdf (printSdf f) = some f :=
+  parseSdf_print f h
+
+/-- the same at the grammar level alone (what lark's parse tree contains, no transformer) -/
+theorem sdf_text_roundtrip_tree (f : SdfFile) (h : f.valid = true) : parseTree (printSdfL f) = some f :=
+  parseTree_print f h
+
+/-- a valid tree never makes the transformer raise -/
+theorem sdf_text_valid_ok (f : SdfFile) (h : f.valid = true) : f.ok = true := SdfFile.ok_of_valid f h
+
+/-- a file with a DESIGN entry, an escaped instance name, an edge-qualified pin, `()`, partially empty value lists,
+a negative number, two DELAY sections, a quoted name with a blank, and a block without INSTANCE -/
+def exText : SdfFile :=
+  { designs := ["top".toList],
+    cells := [⟨["u\\3\\[0\\]".toList],
+                [[⟨true, "(posedge A1)".toList, "ZN".toList, [some ("1.5".toList, "2".toList, "-.25".toList), none]⟩],
+                 [⟨true, "A2".toList, "ZN".toList, [some ([], [], "9".toList)]⟩]]⟩,
+              ⟨[], [[⟨false, "\"a b\"".toList, "u2/I".toList, [some ("0.1".toList, [], [])]⟩]]⟩] }
+
+example : exText.valid = true := by decide +kernel
+example : printSdf exText = "(DELAYFILE (DESIGN \"top\") (CELL (INSTANCE u\\3\\[0\\]) (DELAY (ABSOLUTE (IOPATH (posedge A1) ZN (1.5:2:-.25) ()))) (DELAY (ABSOLUTE (IOPATH A2 ZN (::9))))) (CELL (DELAY (ABSOLUTE (INTERCONNECT \"a b\" u2/I (0.1::))))))\n" := by
+  decide +kernel
+example : parseSdf (printSdf exText) = some exText := sdf_text_roundtrip exText (by decide +kernel)
+
+/-- the reader on a text the printer does not produce: header entries, comment, tabs and line breaks, CELLTYPE,
+`( )`, a TIMINGCHECK block with nested parentheses -/
+example : parseSdf ("(DELAYFILE (SDFVERSION \"2.1\") // c\n (CELL (CELLTYPE \"INV\")\n\t(INSTANCE u1) (DELAY (ABSOLUTE\n " ++
+      "(IOPATH A ZN (1:2:3) ( )))) (TIMINGCHECK (WIDTH (posedge A) (1:1:1)) x)))")
+    = some ⟨[], [⟨["u1".toList], [[⟨true, "A".toList, "ZN".toList, [some ("1".toList, "2".toList, "3".toList), none]⟩]]⟩]⟩ := by
+  decide +kernel
+/-- lark's terminal order: a line break after `(INSTANCE` belongs to the name -/
+example : parseSdf "(DELAYFILE (CELL (INSTANCE\nu1)))" = some ⟨[], [⟨["\nu1".toList], []⟩]⟩ := by decide +kernel
+/-- `float("-")` raises in the transformer; three value lists make `IOPath(*args)` raise -/
+example : parseSdf "(DELAYFILE (CELL (INSTANCE u1) (DELAY (ABSOLUTE (IOPATH A ZN (1:-:3))))))" = none := by decide +kernel
+example : parseSdf "(DELAYFILE (CELL (INSTANCE u1) (DELAY (ABSOLUTE (IOPATH A ZN () () ())))))" = none
+    ∧ (parseTree "(DELAYFILE (CELL (INSTANCE u1) (DELAY (ABSOLUTE (IOPATH A ZN () () ())))))".toList).isSome = true := by
+  decide +kernel
+end text
 
 end KV.C14
